@@ -75,6 +75,11 @@ theorem kindOfMsg_msg (e : Module.PathErr) : kindOfMsg (msg e) = some e := TieFn
 
 theorem msg_injective {a b : Module.PathErr} (h : msg a = msg b) : a = b := TieFnModule.msg_injective h
 
+/-- the driver of the regenerated code (`gmodule.*` ops) maps each message literal to the canonical error name of the
+    model's error kind: the two output tables agree -/
+theorem pathKind_msg (e : Module.PathErr) : Drv.GenModule.pathKind (msg e) = e.name := by
+  cases e <;> rfl
+
 example : msg .windows = "%q disallowed as path element component on Windows" ∧
     kindOfMsg "trailing tilde and digits in path element" = some .tildeDigits ∧ kindOfMsg "other" = none := by
   refine ⟨rfl, rfl, rfl⟩
